@@ -88,6 +88,22 @@ def prove(pc, goal, timeout_ms=20000, tier='quick', want_model=True):
 
 
 def prove1(pc, goal, timeout_ms=20000, tier='quick', want_model=True):
+    if z3.is_false(z3.simplify(goal)):
+        # the goal is plainly false: it is refuted as soon as the hypotheses are satisfiable; solvers rarely answer sat
+        # on quantified hypotheses, so decide satisfiability on their quantifier-free part (a superset of models)
+        from .paths import _has_quantifier
+        qf = [f for f in pc if not _has_quantifier(f)]
+        t0 = time.time()
+        s0 = _solver(min(timeout_ms, 5000))
+        s0.add(*qf)
+        r0 = s0.check()
+        if r0 == z3.sat and len(qf) == len(pc):
+            return Verdict('refuted', s0.model(), (time.time() - t0) * 1000, 'z3-5.1')
+        if r0 == z3.sat:
+            return Verdict('refuted', s0.model(), (time.time() - t0) * 1000, 'z3-5.1 (quantifier-free part of the hypotheses)',
+                           detail='goal is False and the quantifier-free hypotheses are satisfiable')
+        if r0 == z3.unsat:
+            return Verdict('proved', None, (time.time() - t0) * 1000, 'z3-5.1 (hypotheses contradictory)')
     fs = list(pc) + [z3.Not(goal)]
     t0 = time.time()
     s = _solver(timeout_ms)
